@@ -24,7 +24,7 @@ CLAIMS = {
              "accept=>well-formed contract on ARBITRARY byte streams (one refill from a fresh start with arbitrary stale ind2pos contents), "
              "encoder/decoder round trip for every input of each length in the bound with all memory checks on, rejection of every truncation and "
              "one-byte extension.",
-        note="Bounds: _REDUCE_BUF_LEN 16 and 8 (hook), streams <= 12 (quick) / 20 (thorough) bytes, round trip lengths 0..8 (BUF 16) and 9,10 "
+        note="Bounds: _REDUCE_BUF_LEN 16 and 8 (hook), streams <= 12 (quick) / 20 (thorough) bytes, round trip lengths 0..9 (BUF 16, encoder window arbitrary = stale bytes of a previous buffer) and 9,10 "
              "(BUF 8, two buffers) quick; up to 17 thorough. mir_hash_strict replaced by a cheap deterministic fold (bucket choice / same function on "
              "both sides); detection of ALTERED bytes rests on a 64-bit hash and is not claimed; the 256-byte driver loops of reduce_encode/decode are "
              "not encoded.",
